@@ -124,7 +124,7 @@ impl<'a> Ctx<'a> {
         let old = self.f.text[start..end].to_string();
         self.log.push(serde_json::json!({
             "rule": rule, "file": self.f.rel, "line": self.f.line_of(start),
-            "old": if old.len() > 200 { format!("{}…", &old[..200.min(old.len())].chars().take(150).collect::<String>()) } else { old },
+            "old": if old.len() > 200 { format!("{}…", old.chars().take(150).collect::<String>()) } else { old },
             "new": if text.len() > 300 { format!("{}…", text.chars().take(200).collect::<String>()) } else { text.clone() },
         }));
         self.edits.push(Edit { start, end, text, prio, rule });
@@ -380,7 +380,7 @@ impl<'c, 'a, 'ast> Visit<'ast> for BodyVisitor<'c, 'a> {
                         self.anchor_done[k] = true;
                         let text = a.lines.join("\n");
                         match a.kind {
-                            AnchorKind::Before => self.cx.edit(s, s, format!("{}\n", text), 50, "R7-splice"),
+                            AnchorKind::Before => self.cx.edit(s, s, format!("{}\n", text), 200000, "R7-splice"), // above any R4 prefix at the same offset
                             AnchorKind::After => self.cx.edit(e, e, format!("\n{}", text), -50, "R7-splice"),
                             AnchorKind::AtEnd => {}
                         }
@@ -602,7 +602,7 @@ fn process_fn(cx: &mut Ctx, sig: &syn::Signature, block: &Block, d: &FnDirective
                 Some(st @ Stmt::Expr(_, None)) => v.cx.f.range(st.span()).0,
                 _ => be,
             };
-            v.cx.edit(pos, pos, format!("{}\n", a.lines.join("\n")), 40, "R7-splice");
+            v.cx.edit(pos, pos, format!("{}\n", a.lines.join("\n")), 199999, "R7-splice"); // above any R4 prefix at the same offset
             v.anchor_done[k] = true;
         }
     }
@@ -961,10 +961,24 @@ fn main() {
                     Item::Struct(x) => {
                         cx.attrs(&x.attrs, (s, e), &idir.keep_derive);
                         cx.vis(&x.vis);
+                        if idir.make_pub && matches!(x.vis, syn::Visibility::Inherited) {
+                            // R10 (opt-in `make-pub`): a private struct is widened to `pub` (Verus requires types named in
+                            // the contract of a trait-impl / pub fn to be public); no extracted body changes meaning.
+                            let (ks, _) = f.range(x.struct_token.span());
+                            cx.edit(ks, ks, "pub ".to_string(), 0, "R10-vis");
+                        }
                         for fld in x.fields.iter() {
                             let r = f.range(fld.span());
                             cx.attrs(&fld.attrs, r, &[]);
                             cx.vis(&fld.vis);
+                            if idir.make_pub && matches!(fld.vis, syn::Visibility::Inherited) {
+                                // R10 (opt-in `make-pub`): private field -> pub (a contract must be able to name the field)
+                                let fs = match &fld.ident {
+                                    Some(id) => f.range(id.span()).0,
+                                    None => f.range(fld.ty.span()).0,
+                                };
+                                cx.edit(fs, fs, "pub ".to_string(), 0, "R10-vis");
+                            }
                         }
                     }
                     Item::Const(x) => {
